@@ -292,12 +292,22 @@ Definition validate (c : hcfg) (q : query) : bool :=
 Definition at_tracked (r : hrec) (i : Z) : option N :=
   if (i <? 0)%Z then None else nth_error (r_tracked r) (Z.to_nat i).
 
+(* r.Time.MTimeTrackedDiff[i] *)
+Definition at_tracked_diff (r : hrec) (i : Z) : option N :=
+  if (i <? 0)%Z then None else nth_error (r_tracked_diff r) (Z.to_nat i).
+
 (* The four state clauses.  m.Index1(state) = slices.Index(Cfg.TrackedStates,
    state) is -1 for a state that is not tracked, and MTimeTracked[-1] panics;
    ValidateQuery rejects such a query before the loop is entered.  A record is
    rejected (`continue records`) as soon as one listed state fails.
+   Activated / Deactivated are decided by the record alone: the state is
+   active / inactive after the transition and its own MTimeTrackedDiff entry is
+   odd (the state flipped in this very transition); a record whose
+   MTimeTrackedDiff were shorter than its MTimeTracked would panic here.
    (Before eab91e0 every `continue` continued the INNER loop, so no clause ever
-   rejected a record, and Inactive indexed with the machine index.) *)
+   rejected a record, and Inactive indexed with the machine index; before
+   3ac5b4b Activated / Deactivated compared with the previous stored record
+   db[i-1], the oldest record passing for want of one.) *)
 Inductive cl_res := CPanic | CReject | CPass.
 
 (* for _, state := range query.Active {
@@ -313,9 +323,9 @@ Fixpoint clause_active (c : hcfg) (r : hrec) (l : list nat) : cl_res :=
   end.
 
 (* idx := m.Index1(state)
-   if !IsActiveTick(r...[idx]) { continue records }
-   if older != nil && IsActiveTick(older...[idx]) { continue records } *)
-Fixpoint clause_activated (c : hcfg) (r : hrec) (older : option hrec) (l : list nat) : cl_res :=
+   if !IsActiveTick(r.Time.MTimeTracked[idx]) { continue records }
+   if r.Time.MTimeTrackedDiff[idx]%2 == 0 { continue records } *)
+Fixpoint clause_activated (c : hcfg) (r : hrec) (l : list nat) : cl_res :=
   match l with
   | [] => CPass
   | s :: rest =>
@@ -324,14 +334,9 @@ Fixpoint clause_activated (c : hcfg) (r : hrec) (older : option hrec) (l : list 
     | None => CPanic
     | Some t =>
       if negb (active_tick t) then CReject
-      else match older with
-           | None => clause_activated c r older rest
-           | Some o =>
-             match at_tracked o idx with
-             | None => CPanic
-             | Some t' => if active_tick t' then CReject
-                          else clause_activated c r older rest
-             end
+      else match at_tracked_diff r idx with
+           | None => CPanic
+           | Some d => if N.even d then CReject else clause_activated c r rest
            end
     end
   end.
@@ -347,9 +352,9 @@ Fixpoint clause_inactive (c : hcfg) (r : hrec) (l : list nat) : cl_res :=
     end
   end.
 
-(* if IsActiveTick(r...[idx]) { continue records }
-   if older != nil && !IsActiveTick(older...[idx]) { continue records } *)
-Fixpoint clause_deactivated (c : hcfg) (r : hrec) (older : option hrec) (l : list nat) : cl_res :=
+(* if IsActiveTick(r.Time.MTimeTracked[idx]) { continue records }
+   if r.Time.MTimeTrackedDiff[idx]%2 == 0 { continue records } *)
+Fixpoint clause_deactivated (c : hcfg) (r : hrec) (l : list nat) : cl_res :=
   match l with
   | [] => CPass
   | s :: rest =>
@@ -358,14 +363,9 @@ Fixpoint clause_deactivated (c : hcfg) (r : hrec) (older : option hrec) (l : lis
     | None => CPanic
     | Some t =>
       if active_tick t then CReject
-      else match older with
-           | None => clause_deactivated c r older rest
-           | Some o =>
-             match at_tracked o idx with
-             | None => CPanic
-             | Some t' => if negb (active_tick t') then CReject
-                          else clause_deactivated c r older rest
-             end
+      else match at_tracked_diff r idx with
+           | None => CPanic
+           | Some d => if N.even d then CReject else clause_deactivated c r rest
            end
     end
   end.
@@ -397,40 +397,39 @@ Definition scalar_skip (q : query) (r : hrec) : bool :=
 Inductive step_res := SPanic | SSkip | STake.
 
 (* the body of `for i := len(db) - 1; i >= 0; i--` for one record *)
-Definition rec_step (c : hcfg) (q : query) (r : hrec) (older : option hrec) : step_res :=
+Definition rec_step (c : hcfg) (q : query) (r : hrec) : step_res :=
   match clause_active c r (q_active q) with
   | CPanic => SPanic | CReject => SSkip | CPass =>
-  match clause_activated c r older (q_activated q) with
+  match clause_activated c r (q_activated q) with
   | CPanic => SPanic | CReject => SSkip | CPass =>
   match clause_inactive c r (q_inactive q) with
   | CPanic => SPanic | CReject => SSkip | CPass =>
-  match clause_deactivated c r older (q_deactivated q) with
+  match clause_deactivated c r (q_deactivated q) with
   | CPanic => SPanic | CReject => SSkip | CPass =>
     if mtime_skip c q r then SSkip
     else if scalar_skip q r then SSkip
     else STake
   end end end end.
 
-(* (position, db[i], db[i-1]) *)
-Fixpoint with_older (prev : option hrec) (pos : nat) (db : list hrec)
-  : list (nat * hrec * option hrec) :=
+(* (position, db[i]) *)
+Fixpoint with_pos (pos : nat) (db : list hrec) : list (nat * hrec) :=
   match db with
   | [] => []
-  | r :: rest => (pos, r, prev) :: with_older (Some r) (S pos) rest
+  | r :: rest => (pos, r) :: with_pos (S pos) rest
   end.
 
-Definition newest_first (db : list hrec) : list (nat * hrec * option hrec) :=
-  rev (with_older None 0 db).
+(* for i := len(db) - 1; i >= 0; i-- *)
+Definition newest_first (db : list hrec) : list (nat * hrec) := rev (with_pos 0 db).
 
 Definition limit_hit (limit : Z) (n : nat) : bool :=
   (0 <? limit)%Z && (limit <=? Z.of_nat n)%Z.
 
 Fixpoint fl_loop (c : hcfg) (q : query) (limit : Z)
-  (l : list (nat * hrec * option hrec)) (ret : list nat) : fl_result :=
+  (l : list (nat * hrec)) (ret : list nat) : fl_result :=
   match l with
   | [] => FlOk ret
-  | (pos, r, older) :: rest =>
-    match rec_step c q r older with
+  | (pos, r) :: rest =>
+    match rec_step c q r with
     | SPanic => FlPanic
     | SSkip => fl_loop c q limit rest ret
     | STake =>
